@@ -839,4 +839,3 @@ func (c *Ctx) callMods(e *Enc, common *ssa.CallCommon, ct *callTarget) ModSet {
 	}
 	return ms
 }
-
